@@ -68,8 +68,8 @@ fn parse_embedded<E: EndianParse, P: ParseAt + Debug>(e: E, class: Class, pre: &
     Ok(())
 }
 
-fn cmp<T: PartialEq + Debug>(got: &T, want: &T) -> Result<(), String> {
-    if got == want {
+fn cmp<T: conv::FieldEq + Debug>(got: &T, want: &T) -> Result<(), String> {
+    if got.field_eq(want) {
         Ok(())
     } else {
         Err(format!("decoded {:?}, the encoded field values are {:?}", got, want))
